@@ -43,6 +43,7 @@ func init() {
 			for f := h.Frontier; f <= h.Shanghai; f++ {
 				cs = append(cs, Case{Kind: "sstore", P: []int64{int64(f)}})
 				cs = append(cs, Case{Kind: "callgas", P: []int64{int64(f)}, Seed: h.Mix(seed, 0xC02C, uint64(f))})
+				cs = append(cs, Case{Kind: "selfdestruct", P: []int64{int64(f)}, Seed: h.Mix(seed, 0xC02D, uint64(f))})
 			}
 			return cs
 		},
@@ -221,6 +222,42 @@ func runC02(c Case, tier string) (res CaseResult) {
 		}
 		res.Evals = n
 		res.Count("sstore_cases", n)
+	case "selfdestruct":
+		// orders of self-destructs within one transaction: the same contract destroyed twice, a beneficiary that was
+		// itself destroyed earlier, the contract as its own beneficiary, new / empty / funded beneficiaries, with and
+		// without balance (refund counter, new-account and cold-access surcharges differ per fork)
+		f := h.Fork(c.P[0])
+		n := int64(0)
+		bens := []common.Address{h.EOARich, h.Nobody, h.EmptyAcct, h.ContractAddr(1), h.ContractAddr(2), h.ContractAddr(3), common.BytesToAddress([]byte{4}), {}}
+		for bi, ben1 := range bens {
+			for _, ben2 := range []common.Address{h.ContractAddr(1), h.ContractAddr(2), h.Nobody} {
+				for _, bal := range []int64{0, 5} {
+					d1 := h.NewAsm().PushAddr(ben1).Op(h.SELFDESTRUCT).Bytes()
+					d2 := h.NewAsm().PushAddr(ben2).Op(h.SELFDESTRUCT).Bytes()
+					d3 := h.NewAsm().Op(h.ADDRESS, h.SELFDESTRUCT).Bytes()
+					a := h.NewAsm()
+					order := [][]int{{1, 1}, {2, 1}, {1, 2, 1}, {3, 1, 3}, {2, 2, 1, 1}}[(bi+int(bal))%5]
+					for _, t := range order {
+						a.PushU(0).PushU(0).PushU(0).PushU(0).PushU(uint64(bal%2)).PushAddr(h.ContractAddr(t)).PushU(100000).Op(h.CALL, h.POP)
+					}
+					a.Op(h.STOP)
+					w := h.BaseWorld([][]byte{a.Bytes(), d1, d2, d3})
+					for i := 1; i <= 3; i++ {
+						w.Get(h.ContractAddr(i)).Balance = big.NewInt(bal)
+					}
+					for _, gas := range []uint64{1_000_000, 60000} {
+						dc := DualCase{World: w, Env: h.EnvSpec{Fork: f}, Tx: h.TxSpec{Entry: h.ECall, From: h.Sender, To: h.ContractAddr(0), Gas: gas},
+							Desc: fmt.Sprintf("selfdestruct order=%v fork=%s beneficiary1=%s beneficiary2=%s balance=%d txgas=%d", order, f, ben1.Hex(), ben2.Hex(), bal, gas)}
+						if fs, _, ok := dualStreams(&res, dc, false, "selfdestruct"); ok {
+							res.Shape("selfdestruct", f, order, bi, bal, shapeOf(fs.L))
+						}
+						n++
+					}
+				}
+			}
+		}
+		res.Evals = n
+		res.Count("selfdestruct_cases", n)
 	case "callgas":
 		f := h.Fork(c.P[0])
 		r := h.NewRNG(c.Seed)
